@@ -157,7 +157,9 @@ Definition sel (r : range) (w i : Z) : bool :=
 Definition big_union {A} (f : A -> sets) (l : list A) : sets :=
   fold_right (fun x u => union2 (f x) u) empty2 l.
 
-Definition indexed {A} (l : list A) : list (Z * A) := combine (map Z.of_nat (seq 0 (List.length l))) l.
+Fixpoint indexed_from {A} (k : Z) (l : list A) : list (Z * A) :=
+  match l with [] => [] | x :: t => (k, x) :: indexed_from (k + 1) t end.
+Definition indexed {A} (l : list A) : list (Z * A) := indexed_from 0 l.
 
 Section Denote.
   Variable LV : Type.
@@ -571,6 +573,8 @@ Definition set_sets (st : cstate) (x : sets) (n : N) : cstate :=
   CS (s_verbose st) (s_li st) (s_lo st) (s_ni st) (s_no st) (s_oo st) (s_single st) (s_sep st) (s_cof st) (s_cif st)
      (s_largest st) (s_nstr st) (s_istr st) (s_hstr st) x n.
 
+Definition is_dash (a : list N) : bool := match a with b :: _ => b =? 45 | [] => false end.
+
 Section Main.
   Variable d : dump.
   Variable limit : option Z.
@@ -588,8 +592,7 @@ Section Main.
     let upd f := Ok (Continue (f st) 0) in
     let with_value (k : list N -> res step) :=
       match next with None => Ok (Stop (Exit 1 [])) | Some v => k v end in
-    match a with
-    | 45 :: _ =>
+    if is_dash a then                           (* *argv[0] == '-' *)
       if is_opt ["-h"; "--help"; "--version"; "-v"; "--verbose"; "--no-smt"; "--default-nodes"; "--local-memory";
                  "--local-memory-flags"; "--best-memattr"]%string a
          || list_eqb (firstn 9 a) (lit "--no-smt=") then Ok (Stop (Unmodelled 1))
@@ -643,7 +646,7 @@ Section Main.
       else if is_opt ["--taskset"]%string a then
         upd (fun st => CS (s_verbose st) (s_li st) (s_lo st) (s_ni st) (s_no st) (s_oo st) (s_single st) (s_sep st) 4 (s_cif st) (s_largest st) (s_nstr st) (s_istr st) (s_hstr st) (s_sets st) (s_nloc st))
       else Ok (Stop (Exit 1 []))                   (* Unrecognized option *)
-    | _ =>
+    else
       let* r := process_arg_d st arg in
       match r with
       | (m, LSets x) => Ok (Continue (set_sets st (apply_mode2 m (s_sets st) x) (N.succ (s_nloc st))) 0)
@@ -651,8 +654,7 @@ Section Main.
       | (_, LAbort) => Ok (Stop Aborted)
       | (_, LHuge) => Ok (Stop Huge)
       | (_, LUnmodelled) => Ok (Stop (Unmodelled 2))
-      end
-    end.
+      end.
 
   Fixpoint main_loop (st : cstate) (args : list (list N)) {struct args} : res (cstate + outcome) :=
     match args with
